@@ -1,0 +1,82 @@
+//go:build verif
+
+package xtype
+
+// Contracts for package xtype (comment-only; checked by /verif/engine).
+
+//@ pred b2i(b bool) int = ite(b, 1, 0)
+
+//@ pred ShapeCount(t *Type) int = b2i(t.Pointer) + b2i(t.Basic) + b2i(t.Map) + b2i(t.List) + b2i(t.Struct) + b2i(t.Interface) + b2i(t.Signature) + b2i(t.Chan)
+
+// Object invariant of *xtype.Type: established by TypeOf/applyTo (the only writers
+// of the shape fields), assumed wherever a *Type is dereferenced.
+//@ pred TypeFieldsOK(t *Type) bool = ShapeCount(t) <= 1
+//@     && (t.Pointer ==> t.PointerInner != nil)
+//@     && (t.Basic ==> t.BasicType != nil)
+//@     && (t.Named ==> t.NamedType != nil)
+//@     && (t.Struct ==> t.StructType != nil)
+//@     && (t.List ==> t.ListInner != nil)
+//@     && (t.Map ==> t.MapKey != nil && t.MapValue != nil)
+//@     && (t.ListFixed ==> t.List)
+//@     && (t.Signature ==> t.SignatureType != nil)
+//@     && (t.Func ==> t.FuncType != nil && t.Signature)
+//@ typeinv Type(t) = t.T != nil && TypeFieldsOK(t)
+
+//@ pred GoValueType(t types.Type) bool = dynIs[*types.Pointer](t) || dynIs[*types.Basic](t) || dynIs[*types.Map](t)
+//@     || dynIs[*types.Slice](t) || dynIs[*types.Array](t) || dynIs[*types.Named](t) || dynIs[*types.Struct](t)
+//@     || dynIs[*types.Interface](t) || dynIs[*types.Signature](t) || dynIs[*types.Chan](t) || dynIs[*types.TypeParam](t)
+
+//@ pred NoShape(t *Type) bool = ShapeCount(t) == 0 && !t.ListFixed && !t.Func
+
+// TypeOf / applyTo establish the object invariant of *Type (they and inStruct are the only writers of its shape fields)
+//@ func TypeOf
+//@   props C03 C13
+//@   requires t != nil && (GoValueType(t) || dynIs[*types.Alias](t))
+//@   assigns nothing
+//@   ensures result != nil && isFresh(result)
+//@   ensures result.T == types.Unalias(t) && result.T != nil
+//@   ensures TypeFieldsOK(result)
+//@   ensures !result.Func
+
+//@ func applyTo
+//@   props C03 C13
+//@   requires rt != nil && t != nil && GoValueType(t) && NoShape(rt)
+//@   assigns rt.*
+//@   ensures TypeFieldsOK(rt)
+//@   ensures rt.T == old(rt.T) && rt.String == old(rt.String) && !rt.Func
+//@   ensures old(rt.Named) ==> rt.Named && rt.NamedType != nil
+//@   requires rt.Named ==> rt.NamedType != nil
+
+
+//@ func Accessible
+//@   props C01 C03
+//@   pure
+//@   requires obj != nil
+//@   ensures result == (obj.Exported() || obj.Pkg() == nil || obj.Pkg().Path() == outputPackagePath)
+
+//@ func Type.Enum
+//@   props C08
+//@   requires t != nil && cfg != nil
+//@   assigns t.enum
+//@   ensures result != nil
+//@   ensures !t.Named ==> !result.OK
+//@   ensures t.Named ==> t.enum == result
+
+//@ func loadEnum
+//@   props C08
+//@   requires cfg != nil && t != nil
+//@   assigns nothing
+//@   ensures result != nil
+
+// ---- C09: key-collection loops; the collected slice is sorted before any other use ----
+//@ func Enum.SortedMembers
+//@   props C09
+//@   maprange 1 unordered-result m
+
+//@ func UsageChecker.Unused
+//@   props C09
+//@   maprange 1 unordered-result keys
+
+//@ func UsageChecker.Used
+//@   props C09
+//@   inline
